@@ -15,6 +15,15 @@ SRetain(cs, i, x, acc) ==
        IF d = 2 THEN [t |-> acc, p |-> TRUE]
        ELSE SRetain(cs, i + 1, x, IF d = 1 THEN acc \o cs[i] ELSE acc)
 
+\* bytewise lexicographic order (= str's Ord): 0 less, 1 equal, 2 greater
+RECURSIVE LexCmp(_, _)
+LexCmp(a, b) ==
+  IF a = <<>> THEN (IF b = <<>> THEN 1 ELSE 0)
+  ELSE IF b = <<>> THEN 2
+  ELSE IF Head(a) < Head(b) THEN 0 ELSE IF Head(a) > Head(b) THEN 2 ELSE LexCmp(Tail(a), Tail(b))
+\* result of the "compare" observation: <<equal?, ordering, every derived observation consistent with the text>>
+CmpVal(a, b) == << (IF a = b THEN 1 ELSE 0), LexCmp(a, b), 1 >>
+
 \* result of a call on String: new texts, outcome class, returned value, panic kind
 A(tx, cls, val, msg) == [txt |-> tx, cls |-> cls, val |-> val, msg |-> msg]
 Same(txt, cls, val, msg) == A(txt, cls, val, msg)
@@ -58,10 +67,15 @@ Abs(txt, op, statics) ==
     [] op.op = "collect" ->
          IF op.m = 0 THEN A(Set(txt, op.h, Concat(op.x)), "ok", <<>>, "")
          ELSE A(txt, "panic", <<>>, "callback")
+    [] op.op = "compare" -> A(txt, "ok", CmpVal(txt[op.h], txt[op.g]), "")
+    [] op.op = "display" ->      \* to_string() of the same value (an erroring Display: no string)
+         IF op.m > 0 /\ (op.n = 0 \/ op.m < op.n) THEN A(txt, "panic", <<>>, "callback")
+         ELSE IF op.n > 0 THEN A(txt, (IF op.t = 1 THEN "err" ELSE "panic"), <<>>, "fmt")
+         ELSE A(Set(txt, op.h, Concat(op.x)), "ok", <<>>, "")
     [] OTHER -> A(txt, "unknown", <<>>, "")
 
 IterOps == {"extend", "collect"}
-SFailed(c) == c.cls = "err" \/ (c.cls = "panic" /\ c.msg = "reserve")
+SFailed(c) == (c.cls = "err" /\ c.msg = "reserve") \/ (c.cls = "panic" /\ c.msg = "reserve")
 \* the oracle after a call c (op + observed outcome): a failed allocation
 \* leaves every text as it was (iterator-driven calls: the observed prefix)
 NextTxt(txt, c, a, obsText) ==
